@@ -51,3 +51,55 @@ K('C19', 'K1.refill.n2', 'teos', _p + 'c19_reorg_refill_n2',
   'N=2: disconnect, then two connections (second evicts): look-ups and heights', 'thorough', timeout=2400)
 K('C19', 'K3.production_keys', 'teos', _p + 'c19_production_keys',
   'Locator key = first 16 bytes of the txid for all 32-byte ids; Txid key = identity')
+
+# ----------------------------------------------------------------------------------------------- C09
+DBM_MODEL = ('models/dbm_tower.rs: relational model of teos::dbm::DBM (tables with PK uniqueness, FK checks, ON DELETE CASCADE, '
+             'the <=/= rule of load_trackers_with_confirmation_status); replaces rusqlite under cfg(kani); SQL text itself is outside the encoding')
+GK_ASSUME = ['pre-states: arbitrary UserInfo records / configuration / heights constrained only by "memory copy == database copy of every user"',
+             'users passed to gatekeeper calls are registered where the code documents it ("inputs are always sanitized")',
+             DBM_MODEL] + COMMON_MODELS_TEOS
+_g = 'gatekeeper::verif_harness::'
+PROPS['C09'] = {
+    'level': 'model_checking',
+    'technique': 'bounded symbolic model checking of the real Gatekeeper source with Kani/CBMC: one operation from an arbitrary '
+                 'pre-state, heights and the three configuration values over the full u32 range',
+    'bounds': '<=2 registered users (+1 unregistered key), <=2 appointments and 1 tracker in the database model, all heights / expiry / '
+              'duration / grace / slot values full u32 (including 0, 1, u32::MAX), unwind 6, memcmp unwind 66',
+    'outside': 'several blocks per poll and reorg sequences are covered through the one-step formulation (any height in, any state in) only; '
+               'the SQL of batch_remove_users and its ON DELETE CASCADE (model); the propagation of SubscriptionExpired(expiry) through '
+               'Watcher/InternalAPI is decided by Engine M (C06/C09 M obligations) when present',
+    'assumptions': GK_ASSUME + ['genesis is never disconnected (height >= 1 on block_disconnected)'],
+    'models': [DBM_MODEL] + COMMON_MODELS_TEOS,
+    'harness_timeout': {'quick': 900, 'thorough': 1800},
+    'obligations': [],
+}
+K('C09', 'K1.expired_iff', 'teos', _g + 'c09_k1_expired_iff', 'has_subscription_expired <=> height >= expiry; reports the stored expiry; read-only')
+K('C09', 'K2.outdated_iff', 'teos', _g + 'c09_k2_outdated_iff', 'get_outdated_users(h) = {u : h >= expiry_u + grace} computed in N (no u32 wrap)')
+K('C09', 'K3.purge_exact', 'teos', _g + 'c09_k3_purge_exact', 'filtered_block_connected(h): exactly the outdated users leave memory and DB with their appointments/trackers; others bit-identical; height := h')
+K('C09', 'K4.disconnect', 'teos', _g + 'c09_k4_disconnect_height', 'block_disconnected(h): height := h-1, users untouched, expiry check honours it')
+K('C09', 'K5.register_new', 'teos', _g + 'c09_k5_register_new', 'new user: start = h, expiry = min(h+duration, u32::MAX), configured slots; memory == DB == receipt')
+K('C09', 'K5.renew', 'teos', _g + 'c09_k5_renew', 'renewal: expiry += duration (saturating), slots += configured (checked); refused renewal changes nothing; memory == DB == receipt')
+
+# ----------------------------------------------------------------------------------------------- C07
+PROPS['C07'] = {
+    'level': 'model_checking',
+    'technique': 'bounded symbolic model checking with Kani/CBMC: bit-precise f32 slot formula for every blob length <= 2^24, and one '
+                 'accounting operation of the real Gatekeeper from an arbitrary pre-state (conservation as an inductive step)',
+    'bounds': 'slot formula: every length <= 2^24 (16 MiB, above the 4 MiB gRPC cap); gatekeeper steps: 2 users, blob lengths any value '
+              '<= 18432 bytes (9 slots, symbolic), balances full u32, <=3 appointment rows, unwind 6',
+    'outside': 'SQL UPDATE users (model); concurrency of the two copies (C10); that the Watcher stores the blob it was charged for is C08; '
+               'restarts; lengths above 2^24 bytes',
+    'assumptions': GK_ASSUME + ['representation invariant: available_slots + slots of the appointments being refunded fits u32 '
+                                '(total granted fits the counter; see DESIGN F14 for why registrations do not enforce it)'],
+    'models': [DBM_MODEL] + COMMON_MODELS_TEOS,
+    'harness_timeout': {'quick': 900, 'thorough': 1800},
+    'obligations': [],
+}
+K('C07', 'K2.charge_new', 'teos', _g + 'c07_k2_charge_new', 'add_update_appointment, new uuid: Ok(s) <=> slots(new) <= available; s = available - slots(new) = memory = DB; Err changes nothing')
+K('C07', 'K2.charge_update', 'teos', _g + 'c07_k2_charge_update', 'add_update_appointment, replacement: charges/returns exactly slots(new) - slots(old)')
+K('C07', 'K3.register_new', 'teos', _g + 'c09_k5_register_new', 'registration grants exactly the configured slots; memory == DB == receipt')
+K('C07', 'K3.renew', 'teos', _g + 'c09_k5_renew', 'renewal adds exactly the configured slots with overflow check; refused renewal changes nothing')
+K('C07', 'K4.refund_one', 'teos', _g + 'c07_k4_delete_refund_one', 'delete_appointments(refund): owner gets exactly slots(blob) back in memory and DB; rows gone; bystanders untouched')
+K('C07', 'K4.refund_two', 'teos', _g + 'c07_k4_delete_refund_two', 'delete_appointments(refund) of two appointments with symbolic owners (same / different)')
+K('C07', 'K4.norefund_one', 'teos', _g + 'c07_k4_delete_norefund_one', 'delete_appointments(no refund): no balance moves (single-row fast path)')
+K('C07', 'K4.norefund_two', 'teos', _g + 'c07_k4_delete_norefund_two', 'delete_appointments(no refund): no balance moves (batch path)')
